@@ -48,9 +48,19 @@ type Step struct {
 	After   string // where the step ended: a yield point, "done" or "blocked"
 }
 
+// LogEntry: what happened, in the order the scheduler saw it - a task resumed by the scheduler, or a
+// task arriving at a yield point / finishing (also one that had been blocked and moved on by itself
+// once the lock it waited for was released).
+type LogEntry struct {
+	Kind  string // "resume", "yield", "done"
+	Task  int
+	Point string
+}
+
 // Result of one controlled execution.
 type Result struct {
 	Steps    []Step
+	Log      []LogEntry
 	Panics   []string
 	Deadlock bool
 }
@@ -152,6 +162,7 @@ func Run(fns []func(), preempt func(point string) bool, choose Chooser) Result {
 	started.Wait()
 
 	apply := func(ev event) {
+		res.Log = append(res.Log, LogEntry{Kind: ev.kind, Task: ev.t.id, Point: ev.point})
 		switch ev.kind {
 		case "yield":
 			ev.t.st = parked
@@ -170,6 +181,24 @@ func Run(fns []func(), preempt func(point string) bool, choose Chooser) Result {
 				apply(ev)
 			default:
 				drained = true
+			}
+		}
+		// a task that was blocked and whose lock has been released is running by itself: let it settle
+		// (park, finish or block again) before the next decision, so that decisions do not race with it
+		for waited := 0; waited < 10000; waited++ {
+			settled := true
+			for _, t := range tasks {
+				if t.st == blocked && !isLockWait(waitReason(t.gid)) {
+					settled = false
+				}
+			}
+			if settled {
+				break
+			}
+			select {
+			case ev := <-events:
+				apply(ev)
+			case <-time.After(200 * time.Microsecond):
 			}
 		}
 		var enabled []int
@@ -206,6 +235,7 @@ func Run(fns []func(), preempt func(point string) bool, choose Chooser) Result {
 		res.Steps = append(res.Steps, Step{Task: cur.id, Enabled: enabled, Point: cur.point})
 		step++
 		cur.st = running
+		res.Log = append(res.Log, LogEntry{Kind: "resume", Task: cur.id})
 		cur.resume <- struct{}{}
 		// wait until cur parks, ends or blocks
 		spins := 0
